@@ -10,7 +10,7 @@ FINDINGS.md - C18
 
 STATUS (HEAD 2b37706): all four defects found by this check are REPAIRED in /repo by additive fix
 commits; KNOWN_FINDINGS.jsonl lists the six signatures as `fixed`; `./run.sh C18 quick|thorough` exits 0
-(quick 12 s, 1 631 160 deliveries; thorough 101 s, 10 028 258 deliveries; no worker deaths any more).
+(quick 16-19 s, 1 691 856 deliveries; thorough 134 s, 10 213 922 deliveries; no worker deaths any more).
 
   F1 (D14)      a63377d  a precommit for height 0 must not reach the missing last commit
   F2, F4 (D18a, D18c)  ad4f98a  BitArray.FromProto takes an array whose bits and words disagree as empty
@@ -206,6 +206,57 @@ Strengthened (nothing loosened): 2^64-2 added to both varint boundary sets (all 
   11.8-12.0 s wall on the unchanged tree (1 631 160 deliveries, distinct 73 221), thorough 101 s
   (10 028 258 deliveries, distinct 368 610), both exit 0.
 
-10 of 12 caught by the quick tier (exit 1, VIOLATION lines for new signatures); the two that are not
+c18-seeded-d-txfetcher-drop-keeps-fetching-entry | mainchain/fetcher: not run here (meta.json: unchanged) | YES | 2: fetcher-sequence "annA1 T1 rmA txsB1" -> fetcher-goroutine-panic (nil pointer at
+  (independently seeded, /verif/seeded/C18d: the drop handling keeps fetching[hash] when the dropped peer |   tx_fetcher.go:555, f.requests[origin].stolen; 440 failing sequences) and "annA1 T1 rmA" ->
+   was the only announcer)                                                                       |   fetcher-bookkeeping:fetching-without-alternates (3962 sequences); both stable over two runs.
+
+Why C18d was MISSED: the fetcher was only reached through single Receive calls on a started reactor; no
+  sequence of announce / timeout / peer removal / delivery was enumerated and the fetcher's timers ran on
+  the wall clock (never fired within a case).
+Built (fetcher.go + harness/mainchain/fetcher/zz_verif_c18_fetcher.go + accessors in
+  harness/mainchain/tx_pool/zz_verif_c18_access.go): an explicit-state search (E2) of the REAL
+  tx_pool.Reactor + fetcher.TxFetcher (its real loop() on its own goroutine) + real TxPool with peers {A, B}
+  and transactions h1 (valid), h2 (underpriced), h3 (valid, never announced):
+  * alphabet (24 events): ann{A,B}{1,2,12}; txs{A,B}{1,2} (broadcast Txs); pool{A,B}{1,2,12,3}
+    (PooledTransactions: solicited or not, full / partial / wrong answers; an EMPTY answer is not
+    expressible: the reactor's decoder rejects an empty list and drops the peer = rm); rm{A,B}; add{A,B};
+    T1 = 600 ms (beyond txArriveTimeout), T2 = 5.1 s (beyond txFetchTimeout);
+  * breadth-first per first event (24 units), depth <= 5 (thorough 6), states de-duplicated per unit by a
+    canonical dump of the fetcher's maps (ages included) + pool content + registered peers; a state is
+    reached by replaying its shortest sequence on a fresh world;
+  * time: the fetcher's own injectable clock - mclock.Simulated installed through the accessor (the
+    constructor used by the reactor, NewTxFetcher, hard-wires mclock.System; the clock/rand/step fields the
+    package keeps for its own tests are set in-package before the loop starts); timers armed with a
+    non-positive delay are fired after every event;
+  * quiescence without a clock: the loop reports each completed iteration on its step channel (counted by
+    a pump goroutine); the number of iterations an event causes is known (Enqueue and Drop always wake the
+    loop once, Notify iff its pre-filter passes - asked through the accessor -, each timer callback counted
+    by the clock wrapper is one iteration); then a no-op Drop("c18-fence") is round-tripped and the count
+    must match exactly (a mismatch is a machinery error, not a verdict); requests the loop decided on are
+    awaited at the mock peers; only then the maps are read;
+  * the loop runs under a recover installed by the accessor (a panic is recorded and always a violation;
+    without it every failing sequence would cost a worker process);
+  * oracles after every sequence: no panic on the loop goroutine / in Receive / RemovePeer, locks free,
+    allocation bounded, bookkeeping invariants (see assumptions), valid delivered transaction in the pool,
+    underpriced one not, no peer stopped by a well-formed message; the next events are the "following
+    well-formed message is still handled" check.
+  Worker machinery: units can be `Stateful` (an explicit-state search re-executes its earlier cases after
+  a restart / for a single-case re-run instead of skipping them).
+  Counts: quick 60 696 sequences, 7 735 states expanded (sum over units), 60 worker-seconds, about +5 s
+  wall (quick now 16-19 s, 1 691 856 deliveries); thorough 185 664 sequences, 23 998 states, 273
+  worker-seconds (thorough 134 s, 10 213 922 deliveries). Both tiers exit 0 on the unchanged tree (1a77bfd).
+Observations on the unchanged tree (not violations):
+  * stale origin: after `ann A h, ann B h, T1 (request to one of them), rm <the other>` the removed peer stays
+    in alternates[h] (drop handling cleans `announced` only; identical in go-ethereum v1.9.15). Seen in 679
+    (quick) / 7 404 (thorough) sequences. Never scheduled, never dereferenced; can park a hash in `announced`.
+    Suggested fix: in the drop case also `delete(f.alternates[hash], drop.peer)` for hash in announces[peer].
+  * a RACE outside the sequential model: Reactor.RemovePeer unregisters the peer BEFORE it tells the
+    fetcher (reactor.go RemovePeer); a request the loop schedules in between reaches Reactor.fetchTx
+    (reactor.go:74-77, fetchTx) with peers.Peer(id) == nil and dereferences it in (*peer).RequestTxs (peer.go:379) on
+    a goroutine without recover. Hit once by the harness's own teardown (two RemovePeer calls without
+    settling in between), which is why teardown now settles each removal. Suggested fix: nil check in fetchTx
+    (return an error: the fetcher then Drops the peer), or Drop before Unregister.
+
+11 of 13 caught by the quick tier (exit 1, VIOLATION lines for new signatures); the two that are not
 caught do not break the property as stated (contained panic = "at most the sending peer is dropped").
 */
